@@ -179,6 +179,9 @@ package graphql
 //@   orderfree
 //@   loop 1 invariant fresh(keys)
 //@   loop 1 over m
+// more than one key: the list handed back went through sort.Strings (whatever the values are)
+//@   at return: assert len(keys) > 1 ==> calls("Strings") == 1
+//@   at call Strings: assert arg0 == keys
 //@ func dethunkMapDepthFirst
 //@   props C13 C09 C12
 //@   nosafety
@@ -795,9 +798,52 @@ package graphql
 //@ func ValidateDocument
 //@   trusted
 //@   assigns nothing
-//@ func PlanQuery
+// (verified, was trusted) the plan is made for the operation SELECTED by name (the only one when no name is
+// given): its root type, its selection set, and its kind decide whether top-level fields run serially (C13)
+//@ func getOperationRootType
 //@   trusted
 //@   assigns nothing
+//@ func Plan.planSelectionSet
+//@   trusted
+//@   assigns class:graphql.selectionPlan, class:graphql.fieldPlan, class:graphql.Plan.expanding
+//@ func PlanQuery
+//@   props C13 C01
+//@   nosafety
+//@   opt invoke.GetKind=pure
+//@   ensures result1 == nil ==> result0 != nil && result0.schema == schema && result0.operation != nil
+//@   ensures result1 == nil ==> (result0.isMutation <==> result0.operation.Operation == ast.OperationTypeMutation)
+//@   ensures result1 == nil && len(operationName) > 0 ==> result0.operation.Name != nil && result0.operation.Name.Value == operationName
+//@   loop 1 over doc.Definitions
+//@   loop 1 invariant operation == nil || len(operationName) == 0 || (operation.Name != nil && operation.Name.Value == operationName)
+//@   at call getOperationRootType: assert arg1 == operation && operation != nil
+//@   at call planSelectionSet: assert arg1 == lastresult("getOperationRootType") && arg2 == operation.SelectionSet && arg0.operation == operation
+// the overlap rule's argument comparison (C02: same response key => identical arguments): every argument of
+// the first field is looked up by name in the second and its value compared; the first difference decides,
+// and only when ALL of them agree (and the counts agree) is the answer yes
+// the field collection used by subscriptions (C09: ends on cyclic fragments also for unvalidated documents):
+// ONE visited-fragment set serves the whole collection: it is handed to the collection of every inline
+// fragment and every spread fragment, and a fragment already in it is not collected again
+//@ func collectFields
+//@   props C09 C01
+//@   nosafety
+//@   at call collectFields#1: assert arg0.VisitedFragmentNames == p.VisitedFragmentNames && arg0.VisitedFragmentNames != nil && arg0.Fields == fields && arg0.ExeContext == p.ExeContext && arg0.RuntimeType == p.RuntimeType
+//@   at call collectFields#2: assert arg0.VisitedFragmentNames == p.VisitedFragmentNames && arg0.VisitedFragmentNames != nil && arg0.Fields == fields && has(p.VisitedFragmentNames, fragName) && p.VisitedFragmentNames[fragName]
+//@   loop 1 over p.SelectionSet.Selections
+//@ func sameValue
+//@   trusted
+//@   functional
+//@   assigns nothing
+//@ func sameArguments
+//@   props C02
+//@   nosafety
+//@   assigns nothing
+//@   ensures len(args1) != len(args2) ==> !result
+//@   loop 1 over args1
+//@   loop 2 over args2
+//@   loop 2 invariant foundArgs2 == nil
+//@   at call sameValue: assert foundArgs2 != nil && arg1 == foundArgs2.Value
+//@   loop 1 ensures calls("sameValue") == atloop(1, calls("sameValue")) + 1 && lastresult("sameValue")
+//@   at return: assert result && len(args1) == len(args2) ==> exitedloop(1)
 // Literal extraction (C06: the normalised document with its synthetic variables answers like the
 // original): a literal is replaced only when it holds no variable and coerces for the expected type; the
 // replacement is declared with exactly the expected type (wrappers included), carries the literal's own
@@ -898,9 +944,14 @@ package graphql
 // shares the possible-type table: it is complete when the schema is handed out (NewSchema, and again
 // after AppendType), and nothing that runs during a request writes it or the implementation lists.
 //@ func NewSchema
-//@   props C07
+//@   props C07 C11
 //@   nosafety
-//@   opt split=4
+//@   opt split=5
+// C11: EVERY interface an object declares is checked against it, and the first violation is returned (an
+// iteration of the check loop ends only when the check found nothing)
+//@   loop[C11] 7 over lastresult("Interfaces")
+//@   at[C11] call assertObjectImplementsInterface: assert arg1 == ttype && arg2 == iface
+//@   loop[C11] 7 ensures calls("assertObjectImplementsInterface") == atloop(7, calls("assertObjectImplementsInterface")) + 1 && lastresult("assertObjectImplementsInterface") == nil
 //@   orderfree[C12,C10]
 //@   ensures result1 == nil ==> result0.possibleTypeMap != nil
 //@   at return: assert result1 == nil ==> calls("buildPossibleTypeMap") == 1
@@ -2150,7 +2201,7 @@ package graphql
 // result is marked, so none is listed twice); a fragment not yet entered is marked and its own steps are
 // replayed, one already entered is not replayed again.
 //@ func selectionPlan.fieldsInOrder$1
-//@   props C13 C01 C20
+//@   props C13 C01 C20 C07
 //@   nosafety
 //@   opt callback.cond=pure
 //@   opt callback.replay=self
@@ -2173,8 +2224,9 @@ package graphql
 //@   loop 1 ensures calls("replay") == atloop(1, calls("replay")) && step.field == nil ==> len(ordered) == atloop(1, len(ordered))
 //@   loop 1 ensures (step.cond == nil || (calls("cond") == atloop(1, calls("cond")) + 1 && lastresult("cond"))) && step.field == nil && step.spread != nil && !heapatloop(1, has(entered, step.spread) && entered[step.spread]) ==> calls("replay") == atloop(1, calls("replay")) + 1
 
+// (C07: the replay is computed into storage of its own; the shared plan is only read)
 //@ func selectionPlan.fieldsInOrder
-//@   props C13 C01 C20
+//@   props C13 C01 C20 C07
 //@   nosafety
 //@   requires sp != nil
 //@   assigns class:M|*graphql.fieldPlan|bool, class:M|*graphql.fragmentTrace|bool, class:E|*graphql.fieldPlan
